@@ -103,7 +103,8 @@ PARTIAL += [
 
 # ---- group gX: composition parser model -> store model over whole histories; review rA findings on C03 ----
 LEAN_MODULES += ["CifModel.Lemmas.ParserStoreSim", "CifModel.Lemmas.ParserStoreRun", "CifModel.Lemmas.ParserTraceShape", "CifModel.Props.ReviewRC03"]
-REQUIRED += ["CifModel.C03_parser_store_refines_covered_partial", "CifModel.C03_parser_store_refines_noframes_partial",
+REQUIRED += ["CifModel.C03_parser_store_refines_covered_partial", "CifModel.C03_parser_store_refines_noframes_partial", "CifModel.C03_parser_store_refines_from_rep_partial",
+             "CifModel.ParserSim.parse_store_sim_from", "CifModel.ParserSim.parse_leaves_rep", "CifModel.ParserSim.prefix_rep",
              "CifModel.C03_parse_is_store_history_partial", "CifModel.C03_store_inv_after_parse_partial",
              "CifModel.C03_calls_resolve", "CifModel.C03_add_packet_calls_succeed", "CifModel.C03_create_frame_calls_succeed",
              "CifModel.C03_set_value_calls_succeed", "CifModel.C03_create_loop_calls_succeed", "CifModel.C03_prune_calls_documented",
@@ -125,8 +126,10 @@ PARTIAL += [
     "set_value in its three cases: existing item, new scalar loop, joining the scalar loop), lifted to Store.step through C04_refines "
     "(Lemmas/ParserStoreRun: handle tables, rep_step, run_sim).  MISSING for the full theorem: (a) save frames — tree_upd is proved for "
     "frame-free states (AState.tree = one container per block row); with frames it must say that the container with a given id occurs once "
-    "in the tree (unique parents, parent < child) and Rep must carry paths longer than one key; (b) pre-existing targets (the driver runs "
-    "cifOps(pre) ++ trace; the theorem starts from the empty world).  Both are EXECUTED on every request of family parse (sto=ok).",
+    "in the tree (unique parents, parent < child) and Rep must carry paths longer than one key; (b) pre-existing targets are covered only as REPRESENTED worlds "
+    "(C03_parser_store_refines_from_rep_partial: from any world satisfying ParserSim.Rep — e.g. the one an earlier parse left, "
+    "ParserSim.parse_leaves_rep — a further frame-free parse refines likewise); no theorem builds such a world from an arbitrary consistent "
+    "Cif (the driver runs cifOps(pre) ++ trace).  Both are EXECUTED on every request of family parse (sto=ok).",
     "review rA finding A.1 (repaired): C03_calls_resolve / Model.Parser.trace_paths_resolve — EVERY recorded call of EVERY parse (any initial "
     "target) addresses a container that exists in the state in which the call is made (Lemmas/ParserTraceShape: a second Hoare logic over the "
     "instrumented productions whose pre/postconditions see the recorded calls; resolution is monotone under every store call); "
